@@ -81,6 +81,13 @@ def observe_misuse(ic: Any, cell: dict) -> Tuple[str, str]:
                 params, call_args = "**kwargs", "_ARGS=1"
             elif m == "kw_KWARGS":
                 params, call_args = "**kwargs", "_KWARGS=1"
+            elif m in ("kw_ARGS_reentrant", "kw_KWARGS_reentrant"):
+                # the condition itself calls the function again, passing the reserved keyword
+                kwname = "_ARGS" if m == "kw_ARGS_reentrant" else "_KWARGS"
+                params = "**kwargs"
+                ns["REENTER"] = lambda: (ns["CALLIT"](), True)[1]
+                cond = "lambda: REENTER()" if d == "require" else "lambda result: REENTER()"
+                deco_expr = "icontract.{}({})".format(d, cond)
             elif m == "param_result":
                 params = "result=1"
             elif m == "param_OLD":
@@ -95,6 +102,15 @@ def observe_misuse(ic: Any, cell: dict) -> Tuple[str, str]:
             src, call = _target(ic, c, params)
             exec(src.replace("{D}", "@DECO"), ns)
             moment[0] = "call"
+            if m in ("kw_ARGS_reentrant", "kw_KWARGS_reentrant"):
+                state = {"depth": 0}
+
+                def callit() -> None:
+                    if state["depth"] == 0:
+                        state["depth"] = 1
+                        eval(call.replace("{A}", kwname + "=1"), ns)
+
+                ns["CALLIT"] = callit
             eval(call.replace("{A}", call_args), ns)
             return ("never", "")
         if d == "invariant":
